@@ -33,12 +33,17 @@ TABLE = [
 ]
 
 
+def _is_async_fn(F, fid):
+    f = F.fns.get(fid)
+    return bool(f and f.get("is_async") and f["kind"] in ("Fn", "AssocFn"))
+
+
 def _bodies(F, roots):
     for fid in sorted(closure_of(F, roots)):
         f = F.fns.get(fid)
         if not f or not f.get("thir"):
             continue
-        if f["kind"] == "Closure" and fid.endswith("::{closure#0}") and (F.fns.get(fid[:-len("::{closure#0}")]) or {}).get("is_async"):
+        if f["kind"] == "Closure" and fid.endswith("::{closure#0}") and _is_async_fn(F, fid[:-len("::{closure#0}")]):
             continue
         if f["kind"] not in ("Fn", "AssocFn", "Closure"):
             continue
